@@ -126,7 +126,10 @@ func (self *Interpreter) listLiteral(node ast.AnalyzedListLiteralExpression) (*v
 		if i != nil {
 			return nil, i
 		}
-		values = append(values, val)
+		// The element gets a cell of its own: `val` may be the cell of a variable, which must not
+		// change when the list element is assigned to later (lists and objects inside still share their contents).
+		elem := *val
+		values = append(values, &elem)
 	}
 
 	return value.NewValueList(values), nil
@@ -151,7 +154,9 @@ func (self *Interpreter) objectLiteral(node ast.AnalyzedObjectLiteralExpression)
 		if i != nil {
 			return nil, i
 		}
-		fields[field.Key.Ident()] = fieldValue
+		// like list elements, fields get a cell of their own
+		fieldCell := *fieldValue
+		fields[field.Key.Ident()] = &fieldCell
 	}
 	return value.NewValueObject(fields), nil
 }
